@@ -34,6 +34,7 @@ type Program struct {
 	Funcs   []*ssa.Function          // universe: all functions with bodies in scope packages (origins)
 	InScope map[*ssa.Function]bool   // function belongs to a scope package
 	byName  map[string]*ssa.Function // "pkg.(Recv).Name" / "pkg.Name" / with $n for anon
+	aliased map[*ssa.Function]bool   // functions registered under an upstream (reference) name
 }
 
 func loadProgram(repo string, goarch string) (*Program, error) {
